@@ -55,6 +55,9 @@ Flip(x) ==
     [] x.t = "crlf" -> Raw("\r")
     [] OTHER -> x
 
+\* a byte >= 0x80 (obs-text) appended to a field value; the harness renders the marker <HI> as 0xE5
+HighBit(x) == IF x.t \in {"field", "trailer"} THEN [x EXCEPT !.val = x.val \o "<HI>"] ELSE x
+
 Mutations(b) ==
   LET s == b.segs IN
        { [req |-> b.req, op |-> "delete",   site |-> i, segs |-> RemoveAtIdx(s, i)] : i \in Idx(s) }
@@ -62,6 +65,7 @@ Mutations(b) ==
   \cup { [req |-> b.req, op |-> "truncate", site |-> i, segs |-> SubSeq(s, 1, i)] : i \in Idx(s) }
   \cup { [req |-> b.req, op |-> "oversize", site |-> i, segs |-> Replace(s, i, Oversize(s[i]))] : i \in { j \in Idx(s) : Oversize(s[j]) # s[j] } }
   \cup { [req |-> b.req, op |-> "flip",     site |-> i, segs |-> Replace(s, i, Flip(s[i]))] : i \in { j \in Idx(s) : Flip(s[j]) # s[j] } }
+  \cup { [req |-> b.req, op |-> "highbit",  site |-> i, segs |-> Replace(s, i, HighBit(s[i]))] : i \in { j \in Idx(s) : HighBit(s[j]) # s[j] } }
   \cup { [req |-> b.req, op |-> "strayCR",  site |-> i, segs |-> InsBefore(s, i, Raw("\r"))] : i \in Idx(s) }
   \cup { [req |-> b.req, op |-> "strayLF",  site |-> i, segs |-> InsBefore(s, i, Raw("\n"))] : i \in Idx(s) }
   \cup { [req |-> b.req, op |-> "swap",     site |-> i, segs |-> Replace(Replace(s, i, s[i + 1]), i + 1, s[i])] : i \in 1..(Len(s) - 1) }
@@ -77,7 +81,17 @@ Extremes ==
   \cup { [req |-> "get", op |-> "long-value", site |-> n, segs |-> <<St("1.1", "200", "OK"), [t |-> "field", name |-> "X-V", val |-> "LONGVALUE", repeat |-> n], Bl>>] : n \in {70000} }
   \cup { [req |-> "get", op |-> "long-reason", site |-> n, segs |-> <<[t |-> "status", ver |-> "1.1", code |-> "200", reason |-> "LONGREASON", repeat |-> n], Bl>>] : n \in {70000} }
 
-All == UNION { Mutations(Bases[k]) : k \in Idx(Bases) } \cup Splices \cup Extremes \cup { [req |-> Bases[k].req, op |-> "none", site |-> 0, segs |-> Bases[k].segs] : k \in Idx(Bases) }
+\* redirects whose Location is odd (accepted by one URI parser and refused by another, unterminated, empty ...),
+\* followed by a second redirect and a final response on the same stream: the follow-up calls must not panic
+OddLocations == {"http://b.test:99999/x", "http://[::1", "//", "http://a b/", "http:///x", "?", "#f", "http://", "http://b.test:/x",
+                 "HTTP://B.TEST/%zz", "http://b.test/\\x", "x:y", "/../../..", "http://b.test:80:80/"}
+OddRedirects ==
+  { [req |-> r, op |-> "odd-location", site |-> 0,
+     segs |-> <<St("1.1", "302", "Found"), Fd("Location", loc), Fd("Content-Length", "0"), Bl,
+                St("1.1", "307", "Again"), Fd("Location", "/next"), Fd("Content-Length", "0"), Bl,
+                St("1.1", "200", "OK"), Fd("Content-Length", "0"), Bl>>] : loc \in OddLocations, r \in {"get", "head"} }
+
+All == OddRedirects \cup UNION { Mutations(Bases[k]) : k \in Idx(Bases) } \cup Splices \cup Extremes \cup { [req |-> Bases[k].req, op |-> "none", site |-> 0, segs |-> Bases[k].segs] : k \in Idx(Bases) }
 
 Table == SetToSeq(All)
 
